@@ -266,11 +266,40 @@ def _exact_traces():
     return out
 
 
+def _threshold_from_trajectory():
+    """Stop thresholds that EQUAL a reading of the trajectory, given in another unit than the one the element carries (C05: the two
+    then compare equal although they are not bit-equal after conversion): a free run first, then the same model with a stop
+    condition whose threshold is the reading of instant 6 re-expressed in rpm / deg; all five operators, motor tachometer and
+    output encoder."""
+    from fractions import Fraction as F
+    import copy
+    base = dict(crafted_instances())['free_stop_gt']
+    base = dict(base, stops=[], ops=[dict(o) for o in base['ops']])
+    for o in base['ops']:
+        o.pop('stop', None)
+        if o['op'] == 'run':
+            o['T'] = o['dt'] * 12
+    free = solver_rec.execute('probe', copy.deepcopy(base), None)
+    h = free['epochs'][0]['hist']
+    out = []
+    for sensor, el, key, unit in (('tach', 0, 'angular_speed', 'rpm'), ('enc', 2, 'angular_position', 'deg'), ('tach', 2, 'angular_speed', 'deg/s')):
+        v = h[el][key][5]                                   # the reading at the sixth recorded instant, exact
+        val = F(int(v.split('/')[0]), int(v.split('/')[1])) if '/' in v else F(v)
+        for op in ('eq', 'ge', 'gt', 'le', 'lt'):
+            inst = copy.deepcopy(base)
+            inst['stops'] = [{'sensor': sensor, 'el': el, 'op': op, 'thr': val, 'thr_unit': unit}]
+            for o in inst['ops']:
+                if o['op'] == 'run':
+                    o['stop'] = 0
+            out.append((f'thr_on_trajectory_{sensor}{el}_{op}', inst))
+    return out
+
+
 def _crafted_traces():
     import_repo()
     import copy
     out = []
-    for name, inst in crafted_instances():
+    for name, inst in crafted_instances() + _threshold_from_trajectory():
         tr = solver_rec.execute('crafted_' + name, copy.deepcopy(inst), None)
         tr['family'] = 'crafted'
         tr['presentation'] = 'SI'
